@@ -544,11 +544,24 @@ class FileProxy:
     def close(self):
         if not self.f.closed:
             self.f.close()
+            posix_close(self.path)
             if self.wrote:
                 fs_event("write", self.path)
 
     def __getattr__(self, k):
         return getattr(self.f, k)
+
+
+def posix_close(path):
+    """POSIX record locks (fcntl.lockf, what fasteners uses): when a process closes ANY descriptor of a file, the locks it
+    holds on that file are dropped (conformance: engines/conformance.py, operation "rw")."""
+    if W is None or HUB is None or HUB.current is None:
+        return
+    p = str(path)
+    proc = current_proc()
+    if proc is not None and W.iplocks.get(p) == proc.pid:
+        del W.iplocks[p]
+        W.events.append(("fs", proc.pid, "lock-dropped-by-close", os.path.basename(p)))
 
 
 def _tracked(path):
@@ -656,6 +669,8 @@ def v_read_text(self, *a, **k):
     """TokenFile.watch() polls the pid file in a spin loop (`while s == "": s = pidpath.read_text()`): the wait is made
     visible - the reader blocks until the file has content or is gone - otherwise the explorer would never get control back."""
     r = _orig["read_text"](self, *a, **k)
+    if _tracked(self):
+        posix_close(self)
     if r == "" and _tracked(self) and str(self).endswith(".pid") and sys._getframe(1).f_code.co_filename.endswith("tokens.py"):
         p = str(self)
         W.events.append(("spin", current_proc().pid, os.path.basename(p)))
